@@ -54,6 +54,15 @@ pub fn cmd_cbor(args: &[&str]) -> String {
                 Err(_) => "B ERR".to_string(),
             }
         }
+        // singular and plural display of a unit given in canonical form
+        "unitnames" => {
+            let c = parse_unit_canon(args[1]);
+            format!(
+                "B {} {}",
+                hex_encode(c.display(false).to_string().as_bytes()),
+                hex_encode(c.display(true).to_string().as_bytes())
+            )
+        }
         // parse a unit word, write it, read it back; print both the way the tool displays them
         "unitword" => {
             let text = String::from_utf8(hex_decode(args[1])).unwrap();
